@@ -103,7 +103,7 @@ type restCase struct {
 var restMethods = []restCase{
 	{"sim2", "Query"}, {"sim2", "PathStr"}, {"sim2", "PathMulti"}, {"sim2", "PathNested"}, {"sim2", "BodyStar"}, {"sim2", "BodyNested"}, {"sim2", "BodyList"}, {"sim2", "BodyScalar"},
 	{"sim2", "Bytes"}, {"sim2", "Del"},
-	{"sim2", "RawBody"},
+	{"sim2", "RawBody"}, {"sim2", "Upload"},
 	{"library", "GetBook"}, {"library", "CreateBook"}, {"library", "ListBooks"}, {"library", "CreateShelf"}, {"library", "UpdateBook"}, {"library", "DeleteBook"}, {"library", "SearchBooks"},
 	{"library", "MoveBooks"}, {"library", "CheckoutBooks"}, {"library", "ReturnBooks"}, {"library", "GetCheckout"}, {"library", "ListCheckouts"}, {"library", "ListShelves"},
 	{"sim", "RestAll"},
@@ -113,6 +113,12 @@ var restMethods = []restCase{
 // field has no place in a raw body, and which content type stands for "none" is not defined.)
 func tidyHTTPBody(c *Chooser, m protoreflect.Message) {
 	if !isHTTPBodyMsg(m.Descriptor()) {
+		fds := m.Descriptor().Fields()
+		for i := 0; i < fds.Len(); i++ {
+			if fd := fds.Get(i); !fd.IsList() && !fd.IsMap() && isHTTPBodyMsg(fd.Message()) && m.Has(fd) {
+				tidyHTTPBody(c, m.Mutable(fd).Message())
+			}
+		}
 		return
 	}
 	fs := m.Descriptor().Fields()
